@@ -74,21 +74,22 @@ Definition sound_result (rem : list (N * orec)) (s : rstate) (r : verdict * (N *
     Forall (fun p => is_pending (snd p) = true) dropped /\
     rt_ok (map snd l) /\ legal _ reg_apply s (map snd l).
 
-Lemma try_ops_sound : forall rec mr mask s rem,
+Lemma try_ops_sound : forall rec mr mask s rem rem0,
   mr = min_ret rem ->
   (forall rem' mask' s' bc', sound_result rem' s' (rec rem' mask' s' bc')) ->
   forall post pre bc,
     incl (rev pre ++ post) rem ->
-    sound_result (rev pre ++ post) s (try_ops rec mr mask s pre post bc).
+    sound_result (rev pre ++ post) s (try_ops rec mr mask s rem0 pre post bc).
 Proof.
-  intros rec mr mask s rem Hmr Hrec. induction post as [|p post IH]; intros pre bc Hincl.
+  intros rec mr mask s rem rem0 Hmr Hrec. induction post as [|p post IH]; intros pre bc Hincl.
   - cbn [try_ops]. intros H. cbn [fst] in H. discriminate.
   - assert (Hnext : forall bc', sound_result (rev pre ++ p :: post) s
-                                 (try_ops rec mr mask s (p :: pre) post bc')).
+                                 (try_ops rec mr mask s rem0 (p :: pre) post bc')).
     { intros bc'. specialize (IH (p :: pre) bc'). cbn [rev] in IH. rewrite <- app_assoc in IH.
       cbn [app] in IH. apply IH. exact Hincl. }
     cbn [try_ops].
-    destruct (eligible mr (snd p) && negb (skip_op (snd p))) eqn:El; [|apply Hnext].
+    destruct (eligible mr (snd p) && (negb (skip_op (snd p)) && negb (blocked s (snd p) rem0))) eqn:El;
+      [|apply Hnext].
     apply andb_prop in El. destruct El as [El _].
     destruct (reg_apply s (snd p)) as [s'|] eqn:Ap; [|apply Hnext].
     set (r := rec (rev_append pre post) (N.lor mask (N.shiftl 1 (fst p))) s' bc).
@@ -131,7 +132,7 @@ Proof.
       * exact I.
     + destruct (fst bc =? 0); [intros H; discriminate|].
       destruct (cache_mem (snd bc) mask s); [intros H; discriminate|].
-      apply (try_ops_sound (search d) (min_ret rem) mask s rem eq_refl IH rem [] _).
+      apply (try_ops_sound (search d) (min_ret rem) mask s rem rem eq_refl IH rem [] _).
       cbn [rev app]. apply incl_refl.
 Qed.
 
